@@ -110,7 +110,41 @@ Theorem C10_cumsum_monotone_rd32 : forall (naxes : list nat) (md : nat) (x : lis
                       (backtransform (fun u y => rd32 (u + y)%R) 0%R naxes md (map rd32 x)).
 Proof. exact cumsum_monotone_rd32. Qed.
 
-(*SURFACE*)
+(* ---- the surface --------------------------------------------------------------------------------------------- *)
+(* Vocabulary (C10_Surface.v): [in_full_support d x] = d is a well-formed dimension (C04's wf_dim) and x lies in a non-empty knot
+   interval l with order <= l <= naxes-1 (one-sided as in evaluation: BSpline.side_of); [offs ds m] = sum_e m_e * stride_e;
+   [inbox ds m] = 0 <= m_e < naxes_e; [mono_along cf ds j pos] = for every multi-index m of the box with m_j + 1 < naxes_j:
+   cf (pos + offs ds m) <= cf (pos + offs ds m + stride_j); [unitv j n] = the derivative-order vector (0,..,1 at j,..,0), which is
+   what the bitmask 2^j denotes (C10_unitv_is_bitmask, cf. C02_bitmask_is_derivative_sum: ndsplineeval with that mask returns
+   BSpline.spline_spec with these derivative orders). *)
+Section SurfaceThms.
+Context {A : Arith}.
+Variable F : OField A.
+Notation K := (T A).
+Notation le := (@OFieldKit.le A).
+
+(* B-splines are non-negative (every order, every index whose knots are inside the knot vector, x in any non-empty knot interval) *)
+Theorem C10_Bfun_nonneg : forall (kn : Z -> K) (nknots : Z),
+  (forall i j, (0 <= i)%Z -> (i <= j)%Z -> (j < nknots)%Z -> le (kn i) (kn j)) ->
+  forall (side : bool) (l : Z) (x : K), (0 <= l)%Z -> (l + 1 < nknots)%Z -> in_piece kn side l x ->
+  forall (n : nat) (i : Z), (0 <= i)%Z -> (i + Z.of_nat n + 1 < nknots)%Z -> le zero (Bfun kn side n i x).
+Proof. exact (Bfun_nonneg F). Qed.
+
+(* int -> field conversion is non-negative on non-negative integers (holds for Qc, R, IEEE doubles) *)
+Hypothesis HofZ : forall z, (0 <= z)%Z -> le zero (@ofZ A z).
+
+(* coefficients non-decreasing along dimension j  =>  sum_m c_m dB_{m_j}(x_j) prod_{e <> j} B_{m_e}(x_e) >= 0 at every point of
+   the fully supported region; any number of dimensions, any orders (order 0 along j: the sum is 0) *)
+Theorem C10_coeff_monotone_implies_surface : forall (t : @table A) (xs : list K) (j : nat),
+  Forall2 in_full_support (dims t) xs -> (j < length (dims t))%nat ->
+  mono_along (coef t) (dims t) j 0%Z ->
+  le zero (spline_spec t xs (unitv j (length (dims t)))).
+Proof.
+  intros t xs j Hx Hj Hm. unfold spline_spec.
+  apply (coeff_monotone_implies_surface F (coef t) HofZ (dims t) xs Hx j 0%Z one Hj (le0_one F) Hm).
+Qed.
+End SurfaceThms.
+
 
 (* ---- non-vacuity ---------------------------------------------------------------------------------------------- *)
 Definition qz (z : Z) : Qc := Q2Qc (inject_Z z).
@@ -140,6 +174,24 @@ Proof.
   apply (solution_is_kkt QcA_OField); [vm_compute; reflexivity|reflexivity|repeat constructor].
 Qed.
 
+(* the surface theorem's hypotheses are satisfiable: order 2, knots 0..7, coefficients 1,2,5,10,17 (increasing), x = 7/2 in the
+   knot interval 3 of the fully supported range [2,5]; and its conclusion has content: the derivative there is 4 > 0 *)
+Definition ex_tab10 : @table QcA := @mkTable QcA [@mkDim QcA 2%nat 8 5 1 (fun i => qz i)] (fun i => qz (i * i + 1)).
+Example C10_example_surface :
+  Forall2 (@in_full_support QcA) (dims ex_tab10) [Q2Qc (7 # 2)] /\
+  @mono_along QcA (coef ex_tab10) (dims ex_tab10) 0%nat 0%Z /\
+  @spline_spec QcA ex_tab10 [Q2Qc (7 # 2)] (unitv 0 1) = Q2Qc 4.
+Proof.
+  split; [|split].
+  - constructor; [|constructor]. split.
+    + unfold wf_dim. cbn [d_order d_nknots d_naxes d_kn]. split; [lia|]. split; [lia|]. split; [intros; exact I|].
+      intros i j Hi Hij Hj. unfold qz. apply Qc_leb_le. unfold Qcle. cbn [this Q2Qc]. rewrite !Qred_correct. rewrite <- Zle_Qle. lia.
+    + exists 3%Z. split; [cbn [d_order d_naxes]; lia|]. vm_compute. split; reflexivity.
+  - intros m Hb Hn. inversion Hb as [|d i ds ms Hi Hrest]; subst. inversion Hrest; subst. cbn [nth offs dims ex_tab10 d_stride d_naxes coef] in *.
+    unfold qz. apply Qc_leb_le. unfold Qcle. cbn [this Q2Qc]. rewrite !Qred_correct. rewrite <- Zle_Qle. nia.
+  - vm_compute. reflexivity.
+Qed.
+
 Print Assumptions C10_backtransform_spec.
 Print Assumptions C10_backtransform_length.
 Print Assumptions C10_cumsum_monotone_gen.
@@ -153,4 +205,5 @@ Print Assumptions C10_tsystem_solution.
 Print Assumptions C10_cumsum_monotone_ieee.
 Print Assumptions C10_flocq_round_laws.
 Print Assumptions C10_cumsum_monotone_rd32.
-(*SURFACE_PA*)
+Print Assumptions C10_Bfun_nonneg.
+Print Assumptions C10_coeff_monotone_implies_surface.
